@@ -793,7 +793,12 @@ private:
       ? std::min(_config.connectTimeout, std::chrono::milliseconds(200))
       : _config.connectTimeout;
 
-    auto connectResult = _transport->connectSync(resolvedHost, parsedUrl.port, tlsMode, timeout);
+    // The host was resolved here, so the transport only sees an address: hand it
+    // the name the server has to prove (TLS host-name verification and SNI).
+    const std::string serverName =
+      (tlsMode == TlsMode::Client && !isIPAddress(parsedUrl.host)) ? parsedUrl.host : std::string();
+    auto connectResult =
+      _transport->connectSyncNamed(resolvedHost, parsedUrl.port, tlsMode, timeout, serverName);
     if (connectResult.isErr())
     {
       throw std::runtime_error("Connection failed to " + hostPort + ": " +
